@@ -42,7 +42,7 @@ impl Prop for P {
         }
     }
     fn cases(tier: Tier) -> u64 {
-        tier.pick(60_000, 800_000)
+        tier.pick(60_000, 500_000)
     }
     fn strategy(tier: Tier) -> BoxedStrategy<Case> {
         let sums = (len_strategy(tier.pick(300_000, 2_000_000)), prop_oneof![Just(0u8), Just(1u8), Just(2u8)], any::<u64>(), 0u32..=7000, proptest::collection::vec(any::<u32>(), 0..6)).prop_map(|(len, fill, seed, prefix, cuts)| Case::Sums { len, fill, seed, prefix, cuts });
